@@ -89,19 +89,22 @@ static void check_memory(const char* prop_hint, const std::string& what) {
 }
 
 // C05: no outgoing PDU may contain a protected value while the link is not encrypted
+static bytes g_last_request;
 static void leak_scan(int k, const bytes& pdu, const char* path) {
     const am::conn_state& c = g_state->conn[k];
     if (c.encrypted || pdu.size() < 4) return;
     for (std::size_t i = 0; i < decl::n_chars; ++i) {
         const model::chr& ch = decl::chars[i];
-        if (!ch.enc || ch.size < 4) continue;
+        if (!ch.enc || ch.size < 8) continue;
         bytes v = ch.mem ? g_state->shadow[i] : bytes(ch.fixed, ch.fixed + ch.size);
-        // protected values carry unique patterns: look for any 4 byte window of the value
+        // protected values carry unique patterns: look for any aligned 8 octet window of the value.  (A 4 octet window is not sound: the
+        // thorough tier showed windows made of a PDU header octet, or of the first octet of a later write, followed by three octets of
+        // another value that happened to agree with a protected value's window.)
         mon("C05").eval();
-        for (std::size_t off = 0; off + 4 <= v.size(); off += 4) {
-            if (std::search(pdu.begin(), pdu.end(), v.begin() + off, v.begin() + off + 4) != pdu.end()) {
+        for (std::size_t off = 0; off + 8 <= v.size(); off += 4) {
+            if (std::search(pdu.begin(), pdu.end(), v.begin() + off, v.begin() + off + 8) != pdu.end()) {
                 verif::violation("C05", std::string("C05:leak:protected_value_in_pdu_while_unencrypted:") + path,
-                                 "decl=" + std::string(decl::declaration_name) + " conn=" + std::to_string(k) + " chr=" + std::to_string(i) + " pdu=" + verif::hex(pdu), g_step);
+                                 "decl=" + std::string(decl::declaration_name) + " conn=" + std::to_string(k) + " chr=" + std::to_string(i) + " pdu=" + verif::hex(pdu) + " last_request=" + verif::hex(g_last_request) + " protected_value=" + verif::hex(v), g_step);
                 return;
             }
         }
@@ -130,6 +133,7 @@ static bytes exchange(int k, const bytes& req, const char* prop = "C01") {
     g_chk->check(k, req, rsp, cap);
     const std::uint8_t op = req[0];
     check_memory((op == 0x16 || op == 0x18) ? "C07" : "C06", "req=" + verif::hex(req));
+    g_last_request = req;
     leak_scan(k, rsp, "response");
     return rsp;
 }
@@ -265,7 +269,12 @@ static void put16(bytes& b, std::uint16_t v) { b.push_back(v & 0xff); b.push_bac
 static bytes unique_bytes(std::size_t n) {
     bytes b(n);
     const unsigned id = g_unique++;
-    for (std::size_t i = 0; i < n; ++i) b[i] = static_cast<std::uint8_t>(i % 4 == 0 ? id : i % 4 == 1 ? id >> 8 : i % 4 == 2 ? (id >> 16) ^ 0x5a : 0xC3 ^ i);
+    // every aligned group of four octets carries the 16 low bits of the id and two octets that depend on id AND position, so that a value
+    // that was partly overwritten by a later write does not look like the octets of a third write (that is what the C05 leak scan relies on)
+    for (std::size_t i = 0; i < n; ++i) {
+        const std::uint32_t m = (id * 2654435761u) ^ (static_cast<std::uint32_t>(i / 4) * 0x9E3779B1u + 0x7F4A7C15u);
+        b[i] = static_cast<std::uint8_t>(i % 4 == 0 ? id : i % 4 == 1 ? id >> 8 : i % 4 == 2 ? (m >> 11) ^ (id >> 16) : (m >> 23));
+    }
     return b;
 }
 static bytes pick_type() {
